@@ -581,6 +581,27 @@ def rule_cursor_constrained(ctx: Ctx) -> RuleResult:
     return rr
 
 
+def rule_bounded_counts(ctx: Ctx) -> RuleResult:
+    """A `while count > 0: ...; count -= 1` loop whose counter is a method parameter runs as often as the terminal
+    output asks (CSI 2147483647 @): the counter must be clamped with min(count, <what the grid can hold>) before the
+    loop, or one escape sequence stalls the emulator for minutes."""
+    p = ctx.p
+    rr = RuleResult("BOUND", "C15.17", "counting loops of TermCanvas whose counter comes from a parameter are clamped with min() first", floor=4)
+    tc = p.cls(f"{VT}.TermCanvas")
+    for fi in p.all_class_functions(tc):
+        cfg = None
+        for n in fi.own_nodes():
+            if isinstance(n, ast.While) and isinstance(n.test, ast.Compare) and isinstance(n.test.left, ast.Name) and n.test.left.id in fi.params and any(isinstance(x, ast.AugAssign) and isinstance(x.target, ast.Name) and x.target.id == n.test.left.id for x in ast.walk(n)):
+                v = n.test.left.id
+                cfg = cfg or cfg_of(fi)
+                clamps = [c for c in cfg.nodes if isinstance(c.ast, ast.Assign) and any(isinstance(t, ast.Name) and t.id == v for t in c.ast.targets) and isinstance(c.ast.value, ast.Call) and callee_name(c.ast.value) == "min" and any(isinstance(a, ast.Name) and a.id == v for a in c.ast.value.args)]
+                heads = [h for h in cfg.nodes if h.kind == "test" and h.ast is n.test]
+                rr.inst(f"{short(fi)}:{norm(n.test, 30)}", True, {"function": short(fi), "loop": norm(n.test, 30), "clamp": [norm(c.stmt, 60) for c in clamps]})
+                if not clamps or not heads or not all(cfg.dominated(h, clamps) for h in heads):
+                    rr.add(finding("BOUND", fi, n, f"`while {norm(n.test, 30)}` counts down the parameter `{v}` without a min() clamp before the loop: the count comes straight from the escape sequence, so one CSI with a huge parameter keeps the emulator busy for minutes", construct=f"{fi.name}: unclamped count {v}"))
+    return rr
+
+
 def run(ctx: Ctx):
     p = ctx.p
     tc = f"{VT}.TermCanvas"
@@ -605,6 +626,7 @@ def run(ctx: Ctx):
         rule_region_edits(ctx),
         rule_erase_inclusive(ctx),
         rule_cursor_constrained(ctx),
+        rule_bounded_counts(ctx),
     ]
     return out
 
@@ -613,6 +635,7 @@ from ..mutants import Mut  # noqa: E402
 
 _V = "urwid/vterm.py"
 MUTANTS = [
+    Mut("ich-count-unclamped", "urwid/vterm.py", "TermCanvas.insert_chars", "        # more than the rest of the row cannot be shifted in\n        chars = min(chars, self.width - x)\n", "", "BOUND|vterm.TermCanvas.insert_chars"),
     Mut("cup-keeps-pending-wrap", "urwid/vterm.py", "TermCanvas.move_cursor", "        # an explicit cursor movement cancels a pending wrap\n        self.is_rotten_cursor = False\n", "", "PASS|vterm.TermCanvas.move_cursor"),
     Mut("canvas-cursor-unconstrained", "urwid/vterm.py", "TermCanvas.set_term_cursor", "        self.term_cursor = x, y = self.constrain_coords(x, y)", "        self.term_cursor = self.constrain_coords(x, y)", "POSBOUND|vterm.TermCanvas.set_term_cursor"),
     Mut("ed1-stops-before-cursor", "urwid/vterm.py", "TermCanvas.csi_erase_display", "self.erase((0, 0), self.term_cursor)", "self.erase((0, 0), (self.term_cursor[0] - 1, self.term_cursor[1]))", "SIB|vterm.TermCanvas.csi_erase_display"),
